@@ -7,25 +7,13 @@
 
    The decoder parameter of Model/InputQ.v is instantiated with the model of
    events.get_key from Model/Keys.v (C03), driven over the buffer exactly like
-   Keys.find_key_go but also reporting what stays in the buffer when it raises. *)
-From Curtsies Require Import Model.Base Gen.Tables Model.Utf8 Model.Keys Model.InputQ Spec.QueueSpec.
+   Keys.find_key_go but also reporting what stays in the buffer when it raises:
+   [find_key_real] of Model/InputKeys.v. *)
+From Curtsies Require Import Model.Base Gen.Tables Model.Utf8 Model.Keys Model.InputQ Model.InputKeys Spec.QueueSpec.
 Close Scope N_scope.
 Local Open Scope Z_scope.
 
 Module C08.
-
-Fixpoint fk_go (enc : encoding) (mode : keynames) (cur buf : list N) : fk :=
-  match buf with
-  | [] => match cur with [] => FkNone | _ => FkRaise ValueError cur [] end
-  | b :: rest =>
-      let cur' := cur ++ [b] in
-      match get_key enc mode (is_nil rest) cur' with
-      | Key k => FkKey k cur' rest
-      | More => fk_go enc mode cur' rest
-      | Err e => FkRaise e cur' rest
-      end
-  end.
-Definition find_key_real (enc : encoding) (mode : keynames) (buf : list N) : fk := fk_go enc mode [] buf.
 
 Record case := mkCase {
   c_enc : encoding; c_mode : keynames; c_th : option Z; c_ntrig : nat;
